@@ -9,6 +9,7 @@ From Apko Require Import Base.Prelude Base.Regex Base.C12Lib Model.Version Model
 From Apko Require Model.Resolver Spec.ResolveSpec Proofs.ResolveTheorems Proofs.LockFixpointResolver Proofs.LockFixpointSuccess.
 From Apko Require Import Model.LockArchOrder Proofs.LockUnifyOrder Proofs.LockPinProofs.
 From Apko Require Proofs.LockFixpointPinned Model.LockBuild Proofs.LockBuildProofs.
+From Apko Require Import Base.C09Lib Generated.C09Build Model.LockGuard Proofs.LockGuardProofs.
 From Coq Require Import Permutation Sorted.
 Open Scope string_scope. Open Scope list_scope.
 
@@ -424,6 +425,37 @@ Proof.
 Qed.
 Print Assumptions c09_locked_vs_unlocked_install_order.
 
+(* ---- session 5: the Lockfile branch of buildImage, read from the source by shape (Generated/C09Build.v) ------ *)
+
+(* an edited configuration is never built from a stale lock: with a config record in the lock file and a known
+   checksum of the configuration, a recorded deep checksum that differs is refused — for ALL path strings on either
+   side (seeded C09-7 compared the paths); and only such a lock is refused.  lock_refused evaluates the condition
+   goextract read from the guard of buildImage's Lockfile branch. *)
+Theorem c09_stale_lock_refused : forall g,
+  (gi_config_present g = true -> gi_cfg_sum g <> "" -> gi_cfg_sum g <> gi_lock_sum g -> lock_refused g = true) /\
+  (lock_refused g = true -> gi_config_present g = true /\ gi_cfg_sum g <> "" /\ gi_cfg_sum g <> gi_lock_sum g).
+Proof. intro g. split; [exact (stale_lock_refused g) | exact (refused_only_when_stale g)]. Qed.
+Print Assumptions c09_stale_lock_refused.
+
+(* the two install paths of buildImage hand the same source date epoch to the installer (the second argument of
+   InstallPackages on the Lockfile path and of FixateWorld on the other, as read from the source): what
+   updateScriptsTar stamps on the members of lib/apk/db/scripts.tar does not depend on the path (seeded C09-8) *)
+Theorem c09_locked_and_unlocked_install_same_epoch :
+  locked_install_epoch = unlocked_install_epoch /\ locked_install_epoch = "SourceDateEpoch".
+Proof. exact same_epoch. Qed.
+Print Assumptions c09_locked_and_unlocked_install_same_epoch.
+
+(* on top of a base image: ResolveWithBase leaves out of the lock exactly the resolved packages whose NAME the base
+   image holds (in_base_filter, read from the source), and InstallPackages skips exactly the packages whose name is
+   installed — so nothing the lock lists is skipped: the build from the lock adds precisely the listed packages, each
+   in the listed build (seeded C09-9 listed a package the installer then skipped) *)
+Theorem c09_base_image_lock_lists_what_is_installed : forall base resolved,
+  NoDup (List.map bp_name resolved) ->
+  install_on base (lock_listed base resolved) = base ++ lock_listed base resolved /\
+  (forall p, In p (lock_listed base resolved) <-> In p resolved /\ ~ exists b, In b base /\ bp_name b = bp_name p).
+Proof. exact base_lock_listed_is_installed. Qed.
+Print Assumptions c09_base_image_lock_lists_what_is_installed.
+
 (* the validators run on the implementation's observed outputs decide the
    readable statements *)
 Theorem c09_validators_decide :
@@ -521,3 +553,13 @@ Proof.
   - vm_compute. reflexivity.
   - vm_compute. reflexivity.
 Qed.
+
+(* session 5: the guard refuses a lock recorded for another checksum under another spelling of the path, accepts the matching
+   one; the rebuilt pretend-baselayout of the repository is not listed on top of the base image that holds that name *)
+Example c09_guard_example :
+  lock_refused {| gi_config_present := true; gi_cfg_sum := "sha-new"; gi_cfg_file := "dir/./apko.yaml"; gi_lock_sum := "sha-old"; gi_lock_name := "apko.yaml" |} = true /\
+  lock_refused {| gi_config_present := true; gi_cfg_sum := "sha-old"; gi_cfg_file := "dir/./apko.yaml"; gi_lock_sum := "sha-old"; gi_lock_name := "apko.yaml" |} = false /\
+  lock_listed [{| bp_name := "pretend-baselayout"; bp_checksum := "Q1base" |}]
+              [{| bp_name := "pretend-baselayout"; bp_checksum := "Q1rebuilt" |}; {| bp_name := "replayout"; bp_checksum := "Q1r" |}]
+    = [{| bp_name := "replayout"; bp_checksum := "Q1r" |}].
+Proof. exact guard_example. Qed.
